@@ -37,8 +37,12 @@
 
 // TODO: Other sizes? Does anyone need more than 5 slots?
 
+#[cfg(not(sighook_verif))]
 use std::cell::UnsafeCell;
+#[cfg(not(sighook_verif))]
 use std::sync::atomic::{AtomicU16, Ordering};
+#[cfg(sighook_verif)]
+use signal_hook_registry::verif_shim::{AtomicU16, Ordering, UnsafeCell};
 
 const SLOTS: usize = 5;
 const BITS: u16 = 3;
@@ -52,6 +56,18 @@ fn set(n: u16, idx: u16, v: u16) -> u16 {
     let v = v << (BITS * idx);
     let mask = MASK << (BITS * idx);
     (n & !mask) | v
+}
+
+/// The private bit functions, for exhaustive comparison with the model (verification only).
+#[cfg(sighook_verif)]
+pub fn verif_get(n: u16, idx: u16) -> u16 {
+    get(n, idx)
+}
+
+/// See [`verif_get`].
+#[cfg(sighook_verif)]
+pub fn verif_set(n: u16, idx: u16, v: u16) -> u16 {
+    set(n, idx, v)
 }
 
 fn enqueue(q: &AtomicU16, val: u16) {
